@@ -1,5 +1,6 @@
 #![allow(clippy::all)]
 #![allow(dead_code)]
+pub mod alloc_probe;
 pub mod circuit;
 pub mod engine;
 pub mod gen;
